@@ -118,7 +118,8 @@ func (o *packetScanCmdOpts) getScanRange(dstSubnet *net.IPNet) (*scan.Range, err
 	if o.srcIP != nil {
 		srcIP = o.srcIP
 	}
-	if srcIP == nil {
+	// only IPv4 source addresses are supported
+	if srcIP = srcIP.To4(); srcIP == nil {
 		return nil, errSrcIP
 	}
 
@@ -130,7 +131,7 @@ func (o *packetScanCmdOpts) getScanRange(dstSubnet *net.IPNet) (*scan.Range, err
 	return &scan.Range{
 		Interface: iface,
 		DstSubnet: dstSubnet,
-		SrcIP:     srcIP.To4(),
+		SrcIP:     srcIP,
 		SrcMAC:    srcMAC}, nil
 }
 
